@@ -1,0 +1,95 @@
+//go:build verif
+
+// Contracts for package mp4, checked by /verif/govc (comment-only file, compiled only with -tags verif).
+package mp4
+
+// ---------------------------------------------------------------- box decoder schema (S1 of DESIGN.md)
+// Every registered decoder is entered with a header produced by DecodeHeader[SR] and, except for mdat, with the payload
+// inside the reader; this is established by DecodeBoxSR / DecodeBox (obligation at the registry call) and assumed by each decoder.
+
+//@ pred hdrOK(hdr BoxHeader) = (hdr.Hdrlen == 8 || hdr.Hdrlen == 16) && hdr.Size >= uint64(hdr.Hdrlen) && len(hdr.Name) == 4
+//@ pred fitsSR(hdr BoxHeader, sr bits.SliceReader) = hdr.Size - uint64(hdr.Hdrlen) <= uint64(sr.(*bits.FixedSliceReader).len - sr.(*bits.FixedSliceReader).pos)
+
+// mdat is the only box allowed to extend beyond the available bytes (DecodeBoxSR); the registry maps "mdat" to DecodeMdatSR only
+// (checked by the registry obligations of C03).
+// Assumed, not established at the registry call: boxes other than mdat are smaller than 4 GiB (32-bit entry counts times
+// entry sizes are then far from wrapping).
+//@ schema boxDecoderSR func ^Decode\w+SR$ type BoxDecoderSR except ^DecodeMdatSR$
+//@   requires hdrOK(p0) && fitsSR(p0, p2) && p2.(*bits.FixedSliceReader).err == nil
+//@   assumes p0.Size < 1<<32
+//@   callrequires hdrOK(p0) && srOKi(p2) && p2.(*bits.FixedSliceReader).err == nil && (p0.Name != "mdat" ==> fitsSR(p0, p2))
+//@   ensures srOKi(p2)
+//@   ensures result1 == nil ==> p2.(*bits.FixedSliceReader).pos >= old(p2.(*bits.FixedSliceReader).pos)
+//@   ensures result1 == nil ==> p2.(*bits.FixedSliceReader).len == old(p2.(*bits.FixedSliceReader).len)
+//@   ensures result1 == nil ==> result0 != nil
+
+//@ schema boxDecoder func ^Decode\w+$ type BoxDecoder except ^DecodeMdat(Lazily)?$
+//@   requires hdrOK(p0)
+//@   assumes p0.Size < 1<<32
+//@   ensures result1 == nil ==> result0 != nil
+
+//@ func DecodeHeaderSR
+//@   ensures result1 == nil ==> hdrOK(result0) && sr.(*bits.FixedSliceReader).err == nil
+//@   ensures sr.(*bits.FixedSliceReader).len == old(sr.(*bits.FixedSliceReader).len) && sr.(*bits.FixedSliceReader).slice == old(sr.(*bits.FixedSliceReader).slice)
+//@   ensures result1 == nil ==> sr.(*bits.FixedSliceReader).pos == old(sr.(*bits.FixedSliceReader).pos) + result0.Hdrlen
+
+//@ func DecodeHeader
+//@   ensures result1 == nil ==> hdrOK(result0)
+
+//@ func readBoxBody
+//@   requires h.Size >= uint64(h.Hdrlen)
+//@   ensures result1 == nil ==> uint64(len(result0)) == h.Size - uint64(h.Hdrlen)
+
+//@ func DecodeBoxSR
+//@   ensures result1 == nil ==> result0 != nil && sr.(*bits.FixedSliceReader).pos >= old(sr.(*bits.FixedSliceReader).pos) + 8 && sr.(*bits.FixedSliceReader).len == old(sr.(*bits.FixedSliceReader).len)
+
+//@ func DecodeBox
+//@   ensures result1 == nil ==> result0 != nil
+
+//@ func DecodeContainerChildrenSR
+//@   loop 1 invariant srOKi(sr) && sr.(*bits.FixedSliceReader).len == old(sr.(*bits.FixedSliceReader).len) && sr.(*bits.FixedSliceReader).pos >= old(sr.(*bits.FixedSliceReader).pos)
+//@   loop 1 decreases sr.(*bits.FixedSliceReader).len - sr.(*bits.FixedSliceReader).pos
+//@   trustkind nil@c.Type()
+//@   ensures result1 == nil ==> sr.(*bits.FixedSliceReader).len == old(sr.(*bits.FixedSliceReader).len) && sr.(*bits.FixedSliceReader).pos >= old(sr.(*bits.FixedSliceReader).pos)
+
+//@ func DecodeStscSR
+//@   loop 1 invariant 0 <= i && len(b.Entries) == int(entryCount) && (i > 0 && b.singleSampleDescriptionID == 0 ==> len(b.SampleDescriptionID) == int(entryCount))
+
+// The Go type of a decoded child follows from its four-character name through the decoder registry; that link is not
+// expressible per call, so the type assertions that rely on it are assumed in the container decoders below.
+//@ func DecodeEdtsSR
+//@   trustkind typeassert
+//@ func DecodeEdts
+//@   trustkind typeassert
+// Termination of the top-level loops rests on every successful box decode consuming at least the 8 header bytes of a
+// finite input; with the registry call havocking the reader state this is not derivable here and is not claimed.
+// Elements of MoofBox.Trafs are appended by MoofBox.AddChild from decoded (non-nil) traf boxes only; that invariant of the
+// decoded tree is assumed at the two call sites below (trustkind with the obligation text, spaces removed).
+//@ func DecodeFile
+//@   trustkind typeassert nil@recv:traf.ContainsSencBox() pre:mp4.DecodeBoxLazyMdat@rsOK(r)
+//@   loop 1 noterm
+//@ func DecodeFileSR
+//@   trustkind typeassert
+//@   requires sr.(*bits.FixedSliceReader).err == nil
+//@   loop 1 noterm
+// children hold only results of successful DecodeBox calls (non-nil); the quantified invariant over the appended slice is
+// not discharged by the solvers, the two error-message sites are assumed.
+//@ func DecodeContainerChildren
+//@   loop 1 noterm
+//@   trustkind nil@c.Type()
+
+//@ func DecodeBoxLazyMdat
+//@   ensures result1 == nil ==> result0 != nil
+
+//@ func NewFile
+//@   ensures result != nil
+//@ func decodeDac3FromData
+//@   ensures result1 == nil ==> result0 != nil
+//@ func decodeDec3FromData
+//@   ensures result1 == nil ==> result0 != nil
+//@ func DecodeMdat
+//@   requires hdrOK(hdr)
+//@ func DecodeMdatSR
+//@   requires hdrOK(hdr)
+//@ func DecodeMdatLazily
+//@   requires hdrOK(hdr)
